@@ -181,6 +181,7 @@ def step (e : Env) (toks : List String) : Env × String :=
        | some (sa, sb, su) => (e, two (mergeOk sa sb) (normalised su))
        | none => (e, "err"))
     | _, _, _, _, _, _ => (e, "bad-op")
+  | "realx" :: _ => (e, "*")
   | "commc" :: _ => (e, "*")
   | "assocc" :: _ => (e, "*")
   | "idemc" :: _ => (e, "*")
@@ -221,11 +222,22 @@ def oracleStep (toks : List String) (ans : String) : Verdict :=
        | [some l, some r, some n] =>
          -- unionc: both estimates and the true number of distinct hashes
          let p := (args.head?.bind String.toNat?).getD 0
-         (judge (.count law l r) toks ["count-" ++ law.name]).and
-           (Verdict.pass true [errorClass p n l])
+         ((judge (.count law l r) toks ["count-" ++ law.name]).and
+           (judge (.estimate p n l) toks [errorClass p n l])).and (judge (.estimate p n r) toks [])
        | _ => bad)
     | none =>
-      if ans.startsWith "panic" ∨ ans = "timeout" ∨ ans = "crash" then bad
+      if op = "count" then
+        -- estimate, number of distinct hashes that went into the sketch, precision
+        (match (tokens ans).map String.toNat? with
+         | [some est, some n, some p] => judge (.estimate p n est) toks ["count", errorClass p n est]
+         | _ => bad)
+      else if op = "realx" then
+        (match (tokens ans).map String.toNat? with
+         | [some c1, some n1, some c2, some n2] =>
+           (judge (.estimate 16 n1 c1) toks ["real-xxhash", errorClass 16 n1 c1]).and
+             (judge (.estimate 16 n2 c2) toks [errorClass 16 n2 c2])
+         | _ => bad)
+      else if ans.startsWith "panic" ∨ ans = "timeout" ∨ ans = "crash" then bad
       else Verdict.pass false [op]
   | _ => Verdict.fail "bad-line"
 
